@@ -5,6 +5,7 @@ from vlib.obs import S, Err, guarded, canon_exc, gz, gzlist, gstr, gbool, glist,
 from ref import nmt as R
 
 PROP = "C11"
+ANCHORS = [('canopen.nmt', 'NmtBase'), ('canopen.nmt', 'NmtMaster.on_heartbeat'), ('canopen.nmt', 'NmtMaster.send_command'), ('canopen.nmt', 'NmtMaster.wait_for_heartbeat'), ('canopen.nmt', 'NmtMaster.wait_for_bootup'), ('canopen.nmt', 'NmtSlave.on_command'), ('canopen.nmt', 'NmtSlave.send_command'), ('canopen.nmt', 'NmtSlave.update_heartbeat')]
 MODEL_VO = ["theories/Model/Nmt.vo"]
 COQ_IMPORTS = "From CV Require Import Model.RefNmt Model.Nmt."
 COQ_RUN = "run_nmt"
